@@ -154,58 +154,51 @@ Section SpanIn.
   Lemma desc_unfold i s e k : desc (Node i s e k) = descs k.
   Proof. reflexivity. Qed.
 
-  (* whatever the scan answers, it is sound; and NotFound means no node of the forest lies within the span *)
-  Lemma scan_in_sound : forall fuel todo x, scan_in fuel a b todo = Found x -> within x /\ In x (descs todo).
+  (* the walk order: every node of the forest, parents in front of their children *)
+  Lemma descs_cons c k : descs (c :: k) = c :: desc c ++ descs k.
+  Proof. reflexivity. Qed.
+
+  Lemma descs_app k1 k2 : descs (k1 ++ k2) = descs k1 ++ descs k2.
+  Proof. unfold descs. apply flat_map_app. Qed.
+
+  Lemma descs_length k : length (descs k) = sizes k.
   Proof.
-    induction fuel as [|f IH]; intros todo x H; [discriminate|].
-    cbn [scan_in] in H. destruct todo as [|y rest]; [discriminate|].
+    assert (G : forall n t, size t <= n -> length (desc t) = size t - 1).
+    { induction n as [|n IH]; intros [i s e k0] Hs; rewrite size_unfold in *; [lia|].
+      rewrite desc_unfold. replace (S (sizes k0) - 1) with (sizes k0) by lia.
+      assert (Hk : sizes k0 <= n) by lia. clear Hs. induction k0 as [|c k0 IHk]; [reflexivity|].
+      rewrite descs_cons. cbn [length]. rewrite app_length. change (sizes (c :: k0)) with (size c + sizes k0) in *.
+      rewrite (IH c) by lia. rewrite IHk by lia. destruct c. rewrite size_unfold. lia. }
+    induction k as [|c k IHk]; [reflexivity|]. rewrite descs_cons. cbn [length]. rewrite app_length, IHk, (G (size c) c (le_n _)).
+    change (sizes (c :: k)) with (size c + sizes k). destruct c. rewrite size_unfold. lia.
+  Qed.
+
+  (* the scan answers with the FIRST node of the walk order that lies within the span - sound and complete *)
+  Theorem scan_in_is_first : forall fuel todo, sizes todo < fuel ->
+    scan_in fuel a b todo = find (fun x => inside x a b) (descs todo).
+  Proof.
+    induction fuel as [|f IH]; intros todo Hf; [lia|].
+    destruct todo as [|y rest]; [reflexivity|]. cbn [scan_in]. rewrite descs_cons. cbn [find]. unfold inside at 1.
+    assert (Hrec : scan_in f a b (kids y ++ rest) = find (fun x => inside x a b) (desc y ++ descs rest)).
+    { rewrite IH.
+      - rewrite descs_app. destruct y as [i s e k]. reflexivity.
+      - rewrite sizes_app. change (sizes (y :: rest)) with (size y + sizes rest) in Hf. destruct y as [i s e k]. rewrite size_unfold in Hf. cbn [kids]. lia. }
     destruct (Nat.ltb_spec (st y) a) as [B|B].
-    - destruct (IH _ _ H) as [W I]. split; [exact W|].
-      unfold descs in *. rewrite flat_map_app in I. cbn [flat_map]. apply in_app_or in I. destruct I as [I|I].
-      + right. apply in_or_app. left. destruct y as [i s e k]. exact I.
-      + right. apply in_or_app. now right.
-    - destruct (Nat.leb_spec (en y) b) as [C|C]; [|discriminate]. inversion H; subst. split; [unfold within; lia|]. unfold descs. cbn. now left.
+    - destruct (Nat.leb_spec a (st y)); [lia|]. cbn [andb]. exact Hrec.
+    - destruct (Nat.leb_spec a (st y)); [|lia]. cbn [andb]. destruct (Nat.leb (en y) b); [reflexivity|exact Hrec].
   Qed.
 
-  Lemma scan_in_below : forall fuel todo x, scan_in fuel a b todo = Below x -> In x (descs todo) /\ a <= st x /\ b < en x.
+  Theorem find_in_sound : forall fuel todo x, sizes todo < fuel -> scan_in fuel a b todo = Some x -> within x /\ In x (descs todo).
   Proof.
-    induction fuel as [|f IH]; intros todo x H; [discriminate|].
-    cbn [scan_in] in H. destruct todo as [|y rest]; [discriminate|].
-    destruct (Nat.ltb_spec (st y) a) as [B|B].
-    - destruct (IH _ _ H) as (I & R). split; [|exact R].
-      unfold descs in *. rewrite flat_map_app in I. cbn [flat_map]. apply in_app_or in I. destruct I as [I|I].
-      + right. apply in_or_app. left. destruct y as [i s e k]. exact I.
-      + right. apply in_or_app. now right.
-    - destruct (Nat.leb_spec (en y) b) as [C|C]; [discriminate|]. inversion H; subst. split; [unfold descs; cbn; now left|lia].
+    intros fuel todo x Hf H. rewrite scan_in_is_first in H by exact Hf. apply find_some in H. destruct H as [I W].
+    unfold inside in W. apply andb_true_iff in W. destruct W as [W1 W2]. apply Nat.leb_le in W1, W2. split; [split; assumption|exact I].
   Qed.
 
-  Lemma descs_trans : forall k y x, (forall t u v, In u (desc t) -> In v (desc u) -> In v (desc t)) -> In y (descs k) -> In x (desc y) -> In x (descs k).
+  Theorem find_in_complete : forall fuel todo, sizes todo < fuel -> scan_in fuel a b todo = None ->
+    forall x, In x (descs todo) -> ~ within x.
   Proof.
-    intros k y x T. unfold descs. induction k as [|c k IHk]; intros Iy I; [destruct Iy|]. cbn [flat_map] in *.
-    destruct Iy as [->|Iy]; [right; apply in_or_app; now left|].
-    apply in_app_or in Iy. destruct Iy as [Iy|Iy]; [right; apply in_or_app; left; exact (T c y x Iy I)|].
-    right. apply in_or_app. right. apply IHk; assumption.
-  Qed.
-
-  Lemma desc_trans : forall t u v, In u (desc t) -> In v (desc u) -> In v (desc t).
-  Proof.
-    fix T 1. intros [i s e k] u v Hu Hv. rewrite desc_unfold in *. unfold descs in *.
-    induction k as [|c k IHk]; [destruct Hu|]. cbn [flat_map] in *.
-    destruct Hu as [->|Hu]; [right; apply in_or_app; now left|].
-    apply in_app_or in Hu. destruct Hu as [Hu|Hu].
-    - right. apply in_or_app. left. exact (T c u v Hu Hv).
-    - right. apply in_or_app. right. apply IHk. exact Hu.
-  Qed.
-
-  Theorem find_in_sound : forall fuel self x, descend_in fuel a b self = Some x -> within x /\ In x (desc self).
-  Proof.
-    induction fuel as [|f IH]; intros self x H; [discriminate|].
-    cbn [descend_in] in H. destruct (scan_in (S (sizes (kids self))) a b (kids self)) as [|y|y] eqn:E; [discriminate| |].
-    - inversion H; subst. destruct (scan_in_sound _ _ _ E) as [W I]. split; [exact W|]. destruct self. exact I.
-    - destruct (IH _ _ H) as [W I]. split; [exact W|].
-      destruct (scan_in_below _ _ _ E) as (Iy & _).
-      destruct self as [i s e k]. rewrite desc_unfold. cbn [kids] in Iy.
-      exact (descs_trans k y x desc_trans Iy I).
+    intros fuel todo Hf H x I [W1 W2]. rewrite scan_in_is_first in H by exact Hf.
+    apply (find_none _ _ H) in I. unfold inside in I. apply andb_false_iff in I. destruct I as [I|I]; [apply Nat.leb_gt in I|apply Nat.leb_gt in I]; lia.
   Qed.
 End SpanIn.
 
